@@ -9,7 +9,6 @@ import (
 	"sort"
 	"strings"
 
-	"golang.org/x/tools/go/ast/astutil"
 	"golang.org/x/tools/go/ssa"
 )
 
@@ -282,7 +281,7 @@ func (br *boundsRun) siteText(s boundSite) string {
 		if pkg := br.w.PkgOf(s.fn); pkg != nil {
 			for _, f := range pkg.Syntax {
 				if f.Pos() <= pos && pos <= f.End() {
-					path, _ := astutil.PathEnclosingInterval(f, pos, pos)
+					path := pathEnclosing(f, pos, pos)
 					for _, n := range path {
 						switch x := n.(type) {
 						case *ast.IndexExpr:
